@@ -70,11 +70,12 @@ struct POp {
     uint32_t id;
     int hold;     // user points / yields while inside
     int dur_us;   // for timed forms
+    bool explicit_unlock = false;  // handle operations: call unlock() on the returned handle (also on a null one) before it dies
 };
 inline std::string pop_json(const POp& p)
 {
     return std::string("{\"op\":\"") + OPN[p.op] + "\",\"id\":" + std::to_string(p.id) + ",\"hold\":" + std::to_string(p.hold) + ",\"us\":" +
-        std::to_string(p.dur_us) + "}";
+        std::to_string(p.dur_us) + (p.explicit_unlock ? ",\"unlock()\":1" : "") + "}";
 }
 
 struct OpResult {
@@ -146,6 +147,10 @@ void do_op(W& w, const POp& p, int tid, RoundState& rs, std::vector<std::future<
             if (h) {
                 res.success = true;
                 excl_body(*h, p, res);
+            }
+            if (p.explicit_unlock) {
+                h.unlock();  // legal on any handle, including one whose try-acquisition failed
+                if (h) vrf::violation("oracle:handle_not_null_after_unlock", "{\"op\":" + pop_json(p) + "}");
             }
         };
         switch (p.op) {
@@ -226,6 +231,10 @@ void do_op(W& w, const POp& p, int tid, RoundState& rs, std::vector<std::future<
             if (h) {
                 res.success = true;
                 shared_body(*h, p, res, rs);
+            }
+            if (p.explicit_unlock) {
+                h.unlock();
+                if (h) vrf::violation("oracle:handle_not_null_after_unlock", "{\"op\":" + pop_json(p) + "}");
             }
         };
         switch (p.op) {
@@ -332,7 +341,7 @@ inline Program gen_program(vrf::Rng& rng, int fam, int mut, uint32_t allowed, in
                 }
                 break;
             }
-            sc.push_back(POp{op, id++, static_cast<int>(rng.below(4)), durs[rng.below(4)]});
+            sc.push_back(POp{op, id++, static_cast<int>(rng.below(4)), durs[rng.below(4)], rng.chance(25)});
             if (id >= 28) break;
         }
         P.scripts.push_back(std::move(sc));
